@@ -159,7 +159,7 @@ static void run_type(uint64_t seed)
             }
         }
         if (it == 1)
-        { // fixed probes of the open findings F24 / F25a / F25b, so that they are observed whatever the seed
+        { // fixed probes of the former findings F24 / F25a / F25b (repaired in /repo): kept so that a regression is seen whatever the seed
             a[0] = C((T)-4, (T)-0.0);
             ca[0] = 4;
             a[N - 1] = C((T)1.5717963267948966, (T)0);   // pi/2 + 1e-3: real-axis pole of tan
@@ -292,6 +292,45 @@ static void run_type(uint64_t seed)
                  [](CL x, CL) { return fabsl(coshl(2 * x.real()) + cosl(2 * x.imag())) < 0.03125L ? "tanh_near_pole" : "unclassified"; });
             // pow with a real exponent, on the conditioned sub-domain |r| * |Log z| <= 8
             cmpc("pow_real_exponent", xs::pow(va, vr), [](CL x, CL, CL, ld r) { return (x == CL(0) || fabsl(r) * std::abs(std::log(x)) > 8) ? CL(NAN, NAN) : std::pow(x, r); }, 32, 1, none);
+        }
+        if (it % 8 == 1)
+        {
+            // operands next to the poles of tan ((2k+1) pi/2 on the real axis) and of tanh (i times that), at distances 2^-1 ...
+            // 2^-(mantissa-4) on either side, on and off the axis: the closed formula sin 2x / (cos 2x + cosh 2y) cancels there
+            C sa[N], ta[N], ha[N];
+            int sca[N];
+            memcpy(sa, a, sizeof a);
+            memcpy(sca, ca, sizeof ca);
+            for (size_t i = 0; i < N; ++i)
+            {
+                int k = (int)(rng.next() % 12) - 6; // poles up to 11 pi/2 = 17.3
+                T pole = (T)((2 * k + 1) * 1.57079632679489661923L);
+                T delta = (T)std::ldexp(1.0 + (double)(rng.next() % 1024) / 1024.0, -1 - (int)(rng.next() % (std::numeric_limits<T>::digits - 4)));
+                if (rng.next() & 1)
+                    delta = -delta;
+                T off = (rng.next() % 3 == 0) ? (T)0 : (T)std::ldexp((rng.next() & 1) ? 1.0 : -1.0, -1 - (int)(rng.next() % (std::numeric_limits<T>::digits - 4)));
+                if (rng.next() % 16 == 0)
+                    off = (T)-0.0;
+                ta[i] = C((T)(pole + delta), off);
+                ha[i] = C(off, (T)(pole + delta));
+                ca[i] = 0;
+            }
+            auto pole_class = [](CL x, CL) -> const char*
+            {
+                // distance of the real part (tan) / imaginary part (tanh) from the nearest odd multiple of pi/2
+                auto dist = [](ld v)
+                { ld q = v / 3.14159265358979323846264338327950288L - 0.5L; return fabsl(q - roundl(q)) * 3.14159265358979323846264338327950288L; };
+                ld d = std::min(dist(x.real()), dist(x.imag()));
+                return (sizeof(T) == 8 && d < ldexpl(1.0L, -26)) ? "pole_within_2^-26_double_trig_reduction" : "unclassified";
+            };
+            memcpy(a, ta, sizeof a);
+            mark_case("complex_tan_near_pole", tname<T>(), a, sizeof a);
+            cmpc("tan", xs::tan(B::load_unaligned(a)), [](CL x, CL, CL, ld) { return std::tan(x); }, 32, 1, pole_class);
+            memcpy(a, ha, sizeof a);
+            mark_case("complex_tanh_near_pole", tname<T>(), a, sizeof a);
+            cmpc("tanh", xs::tanh(B::load_unaligned(a)), [](CL x, CL, CL, ld) { return std::tanh(x); }, 32, 1, pole_class);
+            memcpy(a, sa, sizeof a);
+            memcpy(ca, sca, sizeof ca);
         }
         if (it % 4 == 2)
         {
